@@ -244,4 +244,16 @@ theorem open_edge_rule_X (c : FPCfg α) (data partner : Nat → Arr2 α) (n f : 
   unfold specHaloX
   simp only [hnone]
 
+/-- the same on the Y sides -/
+theorem open_edge_rule_Y (c : FPCfg α) (data partner : Nat → Arr2 α) (n f : Nat)
+    (h : C05.Setup c data partner n) (i' j' : Nat)
+    (hj : j' < c.reqY.1 + n + c.reqY.2) (hout : j' < c.reqY.1 ∨ c.reqY.1 + n ≤ j')
+    (hi1 : c.reqX.1 ≤ i') (hi2 : i' < c.reqX.1 + n)
+    (hnone : linkAt (faceLinks c f c.yAxis) (if (j' : Int) - c.reqY.1 < 0 then 0 else 1) = none) :
+    (padFaceConnections c data partner f).get i' j' =
+      extF c.ruleY c.fillY n (fun y' => (data f).get (i' - c.reqX.1) y') ((j' : Int) - c.reqY.1) := by
+  rw [C05.halo_cell_Y c data partner n f h i' j' hj hout hi1 hi2]
+  unfold specHaloY
+  simp only [hnone]
+
 end Xgcm.C03
